@@ -51,7 +51,15 @@ func gen(r *vh.Rand, tier string, n int, emit func(vh.Case)) {
 					c.Ops = append(c.Ops, fmt.Sprintf("putfail %d %d", vh.Pick(r, []int{0, 0, 0, 1, 1, 2, 3}), r.Intn(2)))
 				}
 			}
-			mode := vh.Pick(r, []string{"d", "s", "c"})
+			// blockstore read failures: the k-th Get call from here fails with an error that is not "not found"
+			if r.Chance(1, 8) {
+				if r.Chance(1, 4) {
+					c.Ops = append(c.Ops, "getfail -")
+				} else {
+					c.Ops = append(c.Ops, fmt.Sprintf("getfail %d %d", vh.Pick(r, []int{0, 0, 1, 1, 2, 3, 5}), r.Intn(2)))
+				}
+			}
+			mode := vh.Pick(r, []string{"d", "s", "c", "d", "s", "c", "S0", "S1", "C0", "C1"})
 			switch r.Intn(8) {
 			case 0, 1, 2: // GetBlock
 				d := r.Intn(nd)
@@ -129,6 +137,20 @@ func gen(r *vh.Rand, tier string, n int, emit func(vh.Case)) {
 		}
 		for d := 0; d < nd; d++ {
 			c.Ops = append(c.Ops, "peek "+bsx.CidTok(0x55, 0x12, 32, d))
+		}
+		// a GetBlocks call whose context is cancelled after k received blocks (monitors only; must be the last op)
+		if r.Chance(1, 6) {
+			var ks, ans []string
+			for k, m := 0, r.Range(1, 8); k < m; k++ {
+				d := r.Intn(nd)
+				t := hcid(r, d)
+				ks = append(ks, t)
+				if r.Chance(4, 5) {
+					ans = append(ans, t+"="+strconv.Itoa(d))
+				}
+			}
+			c.Ops = append(c.Ops, strings.TrimSpace(fmt.Sprintf("cancelget %s %d %s | %s", vh.Pick(r, []string{"d", "s", "C0"}),
+				r.Intn(4), strings.Join(ks, " "), strings.Join(ans, " "))))
 		}
 		emit(c)
 	}
